@@ -37,7 +37,7 @@ impl Cigar {
         self.0
             .iter()
             .filter_map(|op| op.kind().consumes_reference().then_some(op.len()))
-            .sum()
+            .fold(0, usize::saturating_add)
     }
 
     /// Calculates the read length.
@@ -68,7 +68,7 @@ impl Cigar {
         self.0
             .iter()
             .filter_map(|op| op.kind().consumes_read().then_some(op.len()))
-            .sum()
+            .fold(0, usize::saturating_add)
     }
 }
 
